@@ -37,7 +37,9 @@ RULE = ('cases (program, history): typed random stream DAGs (1-3 queue/file sour
         'histories of 1-6 callback firings (batches of 0-3 elements, queue shorter/longer than the history, '
         'oneAtATime both ways, default batch or None, occasional repeated timestamp, files appearing between ticks); '
         'plus a systematic family: every op on a source, every ordered op pair, every diamond combiner, each under '
-        '3 fixed histories; non-trivial = at least one tick delivers a non-empty batch to a node below a source; '
+        '3 fixed histories; plus harness-driven stepping orders (the harness calls _step on the registered nodes in a '
+        'prescribed sequence instead of firing the callback; correspondence only) and programs with a transform function '
+        'returning None (children take the early return of TransformedDStream._step; correspondence only); non-trivial = at least one tick delivers a non-empty batch to a node below a source; '
         'distinct by canonical JSON of the case')
 ASSUMPTIONS = [
     'user functions are pure, total on the element type they are applied to and (for reduce/reduceByKey) commutative '
@@ -105,6 +107,7 @@ TFUN = {
     3: lambda rdd: rdd.filter(PFUN[2]),
     4: lambda rdd: rdd.filter(PFUN[3]).map(EFUN[2]),
     5: lambda t, rdd: rdd.map(lambda x: x + int(t)),
+    6: lambda rdd: None,
 }
 PPFUN = {
     0: lambda p: p,
@@ -418,6 +421,8 @@ def oracle(case, result):
     prog, hist = case
     if any(len(e) != 2 for e in hist):
         return None   # harness-driven stepping order: model tie only, the property is about the callback
+    if any(c[0] == TRANSFORM and c[2] == 6 for c in prog):
+        return None   # a transform function returning None: outside the property, model tie only
     if isinstance(result, Err):
         return (f'run:{result.name}', 'building or stepping the streams raised')
     struct, hn, ticks = result
@@ -568,7 +573,7 @@ def _mk(spec, s):
     return (spec[0], s) + tuple(spec[1:])
 
 
-def gen_program(rng, max_calls=12, with_files=False):
+def gen_program(rng, max_calls=12, with_files=False, with_none=False):
     prog, types, depth = [], [], []
     nsrc = rng.choice([1, 1, 2, 2, 3])
     for j in range(nsrc):
@@ -589,6 +594,19 @@ def gen_program(rng, max_calls=12, with_files=False):
             break
         s = rng.choice(live[-4:]) if rng.random() < 0.6 else rng.choice(live)
         ty = types[s]
+        if isinstance(ty, tuple) or (with_none and rng.random() < 0.15):
+            # a stream that never holds an RDD (below a transform returning None): unary calls only,
+            # their functions are never called, every node takes the early return of _step
+            base = ty[1] if isinstance(ty, tuple) else ty
+            if isinstance(ty, tuple):
+                spec, rty = rng.choice(_unary_choices(base))
+                prog.append(_mk(spec, s))
+                types.append(('N', rty))
+            else:
+                prog.append((TRANSFORM, s, 6))
+                types.append(('N', base))
+            depth.append(depth[s] + 1)
+            continue
         partners = [h for h in range(len(prog)) if types[h] == ty and depth[h] <= 4]
         r = rng.random()
         if r < 0.3 and partners:
@@ -629,8 +647,8 @@ def gen_times(rng, n):
     return ts
 
 
-def gen_case(rng, with_files=False):
-    prog, _ = gen_program(rng, with_files=with_files)
+def gen_case(rng, with_files=False, with_none=False):
+    prog, _ = gen_program(rng, with_files=with_files, with_none=with_none)
     nt = rng.randint(1, 6)
     times = gen_times(rng, nt)
     fsrc = [h for h, c in enumerate(prog) if c == 'FILE']
@@ -746,6 +764,8 @@ def generate(rng, tier):
     n_rand, n_file = (700, 120) if tier == 'quick' else (9000, 1500)
     for _ in range(150 if tier == 'quick' else 1500):
         cases.append(gen_order_case(rng))
+    for _ in range(100 if tier == 'quick' else 1000):
+        cases.append(gen_case(rng, with_none=True))
     for _ in range(n_rand):
         cases.append(gen_case(rng))
     for _ in range(n_file):
@@ -769,6 +789,8 @@ def kind(case):
     prog, hist = case
     if any(len(e) != 2 for e in hist):
         return 'order'
+    if any(c[0] == TRANSFORM and c[2] == 6 for c in prog):
+        return 'none'
     if any(c[0] == FILE for c in prog):
         return 'file'
     nsrc = sum(1 for c in prog if c[0] in (QUEUE, FILE))
